@@ -269,3 +269,26 @@ Definition arr_mask_set (test : Q -> bool) (v : Q) (a : list Q) : list Q := map 
 Definition py_arr_div2 := py_arr_zip Qdiv.
 Definition arr_cumsum (l : list Q) : list Q :=
   snd (fold_left (fun (st : Q * list Q) x => let s := Qred (fst st + x) in (s, snd st ++ [s])) l (0%Q, [])).
+
+(* np.bincount(o, minlength=L): negative entries raise; entries >= L lengthen the result *)
+Fixpoint incr_at_q (c : list Q) (k : nat) : list Q :=
+  match c, k with
+  | [], _ => []
+  | x :: r, O => Qred (x + 1) :: r
+  | x :: r, S k' => x :: incr_at_q r k'
+  end.
+Fixpoint bincount_q (rho : list nat) (L : nat) : list Q :=
+  match rho with [] => repeat 0%Q L | k :: r => incr_at_q (bincount_q r L) k end.
+Definition py_bincount (o : list Z) (L : Z) : res (list Q) :=
+  if existsb (fun x => x <? 0) o then Raise ValueError
+  else Ok (bincount_q (map Z.to_nat o) (Z.to_nat (fold_right Z.max L (map (fun x => x + 1) o)))).
+(* np.vstack of equally long rows *)
+Definition py_vstack (rows : list (list Q)) : res (list (list Q)) :=
+  match rows with
+  | [] => Raise ValueError
+  | r :: rs => if forallb (fun x => Nat.eqb (List.length x) (List.length r)) rs then Ok rows else Raise ValueError
+  end.
+Definition mat_div_s (m : list (list Q)) (q : Q) : list (list Q) := map (map (fun c => c / q)%Q) m.
+(* m @ v *)
+Definition py_matvec (m : list (list Q)) (v : list Q) : res (list Q) :=
+  if forallb (fun row => Nat.eqb (List.length row) (List.length v)) m then Ok (map (fun row => arr_dot row v) m) else Raise ValueError.
